@@ -33,6 +33,7 @@ from harness import c06_common as c6
 from harness import C05 as c05
 
 PID = 'C06'
+MAXKEYS = int(os.environ.get('C06_MAXKEYS', '48') or 48)
 REPO = loader.REPO
 ROOT = os.path.join(REPO, 'tests', 'listing')
 
@@ -145,6 +146,7 @@ def prepare(rel):
                 for r in ti['rows']:
                     oracle[(tn, r, ik)] = byname.get(ti['names'][r]) if ti['unique'][r] else None
         # cross-check with the lines the reader consumed while stepping (full result sets)
+        unread = []
         for j, ik in enumerate(fullk):
             log['writes'].clear()
             lst.index = j
@@ -153,6 +155,10 @@ def prepare(rel):
                     got = log['writes'].get((id(lst._table[tn]), r))
                     if oracle[(tn, r, ik)] is None and not ti['unique'][r]:
                         oracle[(tn, r, ik)] = got           # a name printed for two rows: no scan by name; take the reader's line
+                    elif got is None and oracle[(tn, r, ik)] is not None:
+                        # the file prints the row but stepping did not read it (the table was skipped): not for the
+                        # pre-run to judge - the row's line becomes symbolic and the obligations decide
+                        unread.append((tn, r, ik))
                     elif got != oracle[(tn, r, ik)]:
                         raise ValueError('%s: row %d of table %s at result set %d: text scan finds line %r, stepping reads line %r' % (
                             rel, r, tn, ik, oracle[(tn, r, ik)], got))
@@ -160,7 +166,7 @@ def prepare(rel):
         for (cls, name), v in saved.items(): setattr(cls, name, v)
     P = dict(rel=rel, path=path, raw=raw, fam=fam, sets=sets, bounds=bounds, fullk=fullk, tables=tables, layout=layout,
              oracle=oracle, simulator=lst.simulator, tablenames=list(lst._tablenames),
-             has_short=any(s['short'] for s in sets))
+             has_short=any(s['short'] for s in sets), unread=unread)
     _PREP[rel] = P
     return P
 
@@ -281,9 +287,47 @@ class _Alarm(object):
             signal.setitimer(signal.ITIMER_REAL, 0); signal.signal(signal.SIGALRM, self.old)
 
 
+def decide(c, items):
+    """items: list of (formula, label).  ONE query for the conjunction; when it is refuted the
+    model of that query names a falsified conjunct.  Returns None (all hold) or (label, model).
+    (Ctx.prove_all examines every obligation separately once the conjunction fails; with a
+    broken history() hundreds of them fail together, so the first witness is enough here.)"""
+    forms = []
+    for f, lab in items:
+        if isinstance(f, SBool): f = f.e
+        if isinstance(f, bool): f = z3.BoolVal(f)
+        forms.append((f, lab))
+    if not forms: return None
+    n = len(forms)
+    conj = z3.simplify(z3.And(*[f for f, _ in forms]))
+    c.stats['obligations'] += n
+    if z3.is_true(conj):
+        c.stats['ob_unsat'] += n; c.stats['ob_trivial'] = c.stats.get('ob_trivial', 0) + n
+        return None
+    r, m = c.solve(z3.Not(conj))
+    if r == 'unsat':
+        c.stats['ob_unsat'] += n; c.stats['ob_batched'] = c.stats.get('ob_batched', 0) + n
+        return None
+    if r != 'sat':
+        c.stats['ob_unknown'] += n; c.unknowns.append(dict(label=forms[0][1], info=None))
+        return None
+    for f, lab in forms:
+        if z3.is_false(m.eval(f, model_completion=True)):
+            c.stats['ob_sat'] += 1; c.stats['ob_unsat'] += n - 1
+            return lab, m
+    c.stats['obligations'] -= n
+    for f, lab in forms:          # (not expected) no conjunct is false under the model: examine them one by one
+        if c.prove(f, lab) == 'sat': return lab, c.failures[-1]['model']
+    return None
+
+
 def _e(v):
     """z3 term of a value read by the real code (SReal / python number)"""
     return sym.lift_real(v)
+
+
+def _nonfinite(v):
+    return isinstance(v, float) and (v != v or v in (float('inf'), float('-inf')))
 
 
 def _is_pair(res):
@@ -315,6 +359,19 @@ def task_file(rel, tier, part=0, nparts=1):
         s, cs = c05.symbolize('L%d' % no, raw[no], toks, signs)
         symlines[no] = s
         if cs: cons.append(z3.And(*cs))
+    # TOUGH2-family result-set headers: the digits of the printed TOTAL TIME are symbolic too (sign as printed);
+    # AUTOUGH2 headers stay as shipped (read_header_AUTOUGH2 searches the line for words)
+    time_exp, headlines = {}, []
+    if P['fam'] != 'AUTOUGH2':
+        for ik, st_ in enumerate(sets):
+            no = st_['head']
+            tk = cc.tokenize_row(raw[no])
+            if no in symlines or not tk or tk[0]['exp'] is None or raw[no][:tk[0]['start']].strip(): continue
+            s_, cs = c05.symbolize('H%d' % no, raw[no], tk[:1], set())
+            if isinstance(s_, str): continue
+            symlines[no] = s_; headlines.append(no)
+            cons.append(z3.And(*cs))
+            time_exp[ik] = c05.expected_term(s_.cells, tk[0])
     lines = list(raw)
     for no, s in symlines.items(): lines[no] = s
     budget = c6.budget(len(raw), nsets)
@@ -431,6 +488,7 @@ def task_file(rel, tier, part=0, nparts=1):
                                 symbolic_lines=len(symlines), example_line=repr(next(iter(symlines.values())))[:240]))
 
         # ---- history(), grouped by starting index
+        times_ok = {}        # (time term, result set) pairs already shown equal to the printed header on this path
         for s0 in sorted(set(cl['start'] for cl in calls)):
             positioned = False
             snap = None
@@ -481,19 +539,37 @@ def task_file(rel, tier, part=0, nparts=1):
                     positioned = False
                     continue
                 # times and values per item
-                obl = []
+                obl, tforms = [], {}
                 bad = None
                 for x, (tt, vv) in zip(valid, got):
                     counters['items'] += 1
                     tn, r = x['table'], x['row']
                     visit = [ik for ik in range(nsets) if not sets[ik]['short'] or (cl['short'] and oracle.get((tn, r, ik)) is not None)]
                     want_t = [sets[ik]['time'] for ik in visit]
-                    if [float(t) if not isinstance(t, SReal) else t for t in list(tt)] != want_t:
-                        bad = ('times', 'item %r: times %s..., result sets visited have times %s...' % (x['arg'], repr(list(tt))[:80], repr(want_t)[:80])); break
+                    tl = list(tt)
+                    if len(tl) != len(visit) or any((not isinstance(t, SReal)) and float(t) != w for t, w in zip(tl, want_t)):
+                        bad = ('times', 'item %r: times %s..., result sets visited have times %s...' % (x['arg'], repr(tl)[:80], repr(want_t)[:80])); break
+                    for k, ik in enumerate(visit):
+                        if not isinstance(tl[k], SReal): continue
+                        if ik not in time_exp:
+                            bad = ('times', 'item %r: time %d is not a number read from a result-set header' % (x['arg'], k)); break
+                        key_ = (tl[k].e.get_id(), ik)
+                        if key_ in times_ok: continue
+                        exp, (lo, hi), oparts = time_exp[ik]
+                        rparts = strs.num_parts(tl[k].e)
+                        fm = z3.And(*[a_ == b_ for a_, b_ in zip(rparts, oparts)]) if rparts is not None else (tl[k].e == exp)
+                        distinct.add(('time', z3.simplify(fm).hash()))
+                        lab = 'times:%d:%d' % (cl['items'].index(x), ik)
+                        tforms[lab] = (lo, hi, tl[k].e, exp, rparts, oparts, fm)
+                        obl.append((fm, lab)); times_ok[key_] = tl[k]
+                    if bad: break
                     if len(vv) != len(visit):
                         bad = ('values', 'item %r: %d values for %d result sets' % (x['arg'], len(vv), len(visit))); break
                     for k, ik in enumerate(visit):
                         hv, rv = vv[k], ref[(tn, r, ik)][x['col']]
+                        if _nonfinite(hv) and not _nonfinite(rv):
+                            bad = ('values', 'item %r at result set %d: history gives %r' % (x['arg'], ik, hv)); break
+                        if _nonfinite(rv): continue         # (reported by the printed-value obligation)
                         if not isinstance(hv, SReal) and not isinstance(rv, SReal):
                             good = (hv == (-rv if x['rev'] else rv))
                             if not good: bad = ('reverse-negated' if x['rev'] else 'values',
@@ -509,13 +585,23 @@ def task_file(rel, tier, part=0, nparts=1):
                     fail('%s/%s' % (base, bad[0]), '%s: %s' % (what0, bad[1]), False, call=cl, nos=nos)
                 else:
                     counters['reached'] += len(obl)
-                    for lab, res_ in c.prove_all(obl):
+                    tob = [x_ for x_ in obl if x_[1].startswith('times:')]
+                    for lab, res_ in (c.prove_all(tob) if tob else []):
+                        # (the component-wise form is sufficient, not necessary: re-examined by value as in C05)
                         if res_ != 'sat': continue
-                        m = ([y for y in c.failures if y['label'] == lab] or [dict(model=None)])[-1]['model']
+                        times_ok.clear()
+                        m = c05._confirm(c, lab, *tforms[lab])
+                        if m is None: continue
+                        kind, ii, ik = lab.split(':')
+                        fail('%s/times' % base, '%s: item %r: the time returned for result set %s differs from the time printed in its header' % (
+                            what0, cl['items'][int(ii)]['arg'], ik), None, call=cl, nos=nos + headlines, model=m)
+                        break
+                    hit = decide(c, [x_ for x_ in obl if not x_[1].startswith('times:')])
+                    if hit is not None:
+                        lab, m = hit
                         kind, ii, ik = lab.split(':')
                         fail('%s/%s' % (base, kind), '%s: item %r at result set %s: history value differs from %sthe value read by stepping' % (
                             what0, cl['items'][int(ii)]['arg'], ik, 'minus ' if kind != 'values' else ''), None, call=cl, nos=nos, model=m)
-                        break
                 # state afterwards
                 st_bad = None
                 if not (isinstance(lst.index, int) and lst.index == s0): st_bad = ('restore:index', 'index %r, was %r' % (lst.index, s0))
@@ -532,12 +618,10 @@ def task_file(rel, tier, part=0, nparts=1):
                             elif not (u == v): st_bad = ('restore:tables', 'table %s cell %d is %r, was %r' % (tn, i, u, v)); break
                         if st_bad: break
                     if not st_bad and cellf:
-                        for lab, res_ in c.prove_all(cellf):
-                            if res_ == 'sat':
-                                m = ([y for y in c.failures if y['label'] == lab] or [dict(model=None)])[-1]['model']
-                                fail('%s/restore:tables' % base, '%s: a table cell on display changed (%s)' % (what0, lab), None, call=cl, nos=nos, model=m)
-                                positioned = False
-                                break
+                        hit = decide(c, cellf)
+                        if hit is not None:
+                            fail('%s/restore:tables' % base, '%s: a table cell on display changed (%s)' % (what0, hit[0]), None, call=cl, nos=nos, model=hit[1])
+                            positioned = False
                 if st_bad:
                     fail('%s/%s' % (base, st_bad[0]), '%s: afterwards %s' % (what0, st_bad[1]), False, call=cl, nos=nos)
                     positioned = False
@@ -553,11 +637,15 @@ def task_file(rel, tier, part=0, nparts=1):
                  nonterminating_calls=counters['nonterm'], symbolic_lines=len(symlines), unattributed_cells=counters['unattributed'],
                  result_sets=nsets, tables=P['tablenames'])
     if not counters['reached']: extra['vacuous'] = True
-    # one failure record per key is enough (the framework replays up to three)
+    # two witnesses per key are enough (the framework replays up to three); at most MAXKEYS distinct keys per
+    # file are handed on for replay (a broken history() fails for nearly every table list of every file)
     seen, keep = {}, []
     for fl in failures:
+        if fl['key'] not in seen and len(seen) >= MAXKEYS: continue
         seen[fl['key']] = seen.get(fl['key'], 0) + 1
         if seen[fl['key']] <= 2: keep.append(fl)
+    extra['failing_keys'] = len(set(fl['key'] for fl in failures))
+    extra['failing_keys_not_replayed'] = extra['failing_keys'] - len(seen)
     return report.summarize(name, res, keep, samples, extra=extra)
 
 
@@ -565,7 +653,7 @@ def task_file(rel, tier, part=0, nparts=1):
 
 QUICK_FILES = ('AUTOUGH2/1/case1.listing', 'AUTOUGH2/2/case2.listing', 'AUTOUGH2/3/case3.listing', 'AUTOUGH2/5/case5.listing',
                'AUTOUGH2/6/case6.listing', 'AUTOUGH2/8/case8.listing',
-               'TOUGH2/1/r1q.listing', 'TOUGH2/2/rfp.listing', 'TOUGH2/8/OUTFILE', 'TOUGH2/10/case10.listing',
+               'TOUGH2/1/r1q.listing', 'TOUGH2/2/rfp.listing', 'TOUGH2/8/OUTFILE', 'TOUGH2/11/case11.listing',
                'TOUGH2-MP/1/OUTPUT_DATA', 'TOUGH2-MP/2/OUTPUT_DATA', 'TOUGH2-MP/3/OUTPUT_DATA', 'TOUGH2-MP/6/OUTPUT_DATA', 'TOUGH2-MP/7/OUTPUT_DATA',
                'TOUGH3/1/OUTPUT', 'TOUGH3/2/OUTPUT', 'TOUGH3/4/OUTPUT',
                'TOUGHREACT/1/case1.out', 'TOUGHREACT/2/case2.out',
@@ -575,6 +663,8 @@ QUICK_FILES = ('AUTOUGH2/1/case1.listing', 'AUTOUGH2/2/case2.listing', 'AUTOUGH2
 def build_tasks(tier):
     files = cc.listing_files(REPO)
     if tier == 'quick': files = [f for f in files if f.replace(os.sep, '/') in QUICK_FILES]
+    only = [x for x in os.environ.get('C06_FILES', '').split(',') if x]      # development aid: restrict to some files
+    if only: files = [f for f in cc.listing_files(REPO) if any(x in f for x in only)]
     tasks = []
     for rel in files:
         tasks.append((task_file, dict(rel=rel, tier=tier, part=0, nparts=1)))
